@@ -11,7 +11,7 @@ GEN_FILES = ["Gen_types.v", "Gen_lint.v"]
 RULE = ("lint-clean circuits of <= 10 nodes built from a random DAG (1..3 inputs, constants 0/1, all eight gate types, fan-in 1..4) "
         "plus 1..5 extra edges towards earlier gates (nested / overlapping cycles, several strongly connected components, cycles through "
         "buf/not by re-driving them), inputs and cycle nodes marked as outputs, node insertion order shuffled (it steers the greedy feedback "
-        "heuristic); about 15% acyclic arguments (C05 clause), name-stress variants (aux_in_*, c0_*, c1_* names), and a few arguments outside "
+        "heuristic); hub-and-petal circuits (one node sourcing several feedback edges / several feedback nodes sharing a load); about 15% acyclic arguments (C05 clause), name-stress variants (aux_in_*, c0_*, c1_* names), and a few arguments outside "
         "the domain (self loop, blackbox, x constant); non-trivial = at least one gate and one output; distinct = canonical input hash")
 EXPLANATION = ("model through the API model with the feedback set read back from the result; semantic theorem on the closed form of the result; "
                "closed form = model = implementation decided per case; oracle enumerates all stable states")
@@ -49,6 +49,24 @@ def gen_cyclic(rng, acyclic=False):
     if not any(n[2] for n in nodes):
         nodes[-1][2] = True
     return lib.shuffle_nodes(rng, d)
+
+
+def gen_petals(rng):
+    """k gates that all read a hub and are all read by it: depending on the insertion order the heuristic cuts either the hub
+    (ONE node that is the source of k feedback edges) or the petals (k feedback nodes that share a load)"""
+    k = rng.choice([2, 2, 3])
+    nodes = [["a", "input", rng.random() < 0.3, []], ["b", "input", False, []]]
+    petals = [f"p{i}" for i in range(k)]
+    for p_ in petals:
+        nodes.append([p_, rng.choice(lib.MULTI), rng.random() < 0.4, sorted({"hub", rng.choice(["a", "b"])})])
+    nodes.append(["hub", rng.choice(lib.MULTI), rng.random() < 0.5, sorted(petals + ([rng.choice(["a", "b"])] if rng.random() < 0.5 else []))])
+    if rng.random() < 0.6:
+        nodes.append(["t", rng.choice(lib.MULTI), True, sorted(rng.sample(petals + ["hub", "a"], 2))])
+    if rng.random() < 0.4:          # a second load shared by the petals
+        nodes.append(["u", rng.choice(lib.MULTI), True, sorted(petals)])
+    if not any(n[2] for n in nodes):
+        nodes[-1][2] = True
+    return lib.shuffle_nodes(rng, {"name": "top", "nodes": nodes, "bbs": []})
 
 
 def stress_names(rng, d):
@@ -92,6 +110,7 @@ def generate(rng, tier):
                 g[3] = sorted(set(g[3]) | {"xk"})
             kind = "x-const"
         out.append({"fn": "acyclic_unroll", "circuit": d, "kind": kind})
+    out += [{"fn": "acyclic_unroll", "circuit": gen_petals(rng), "kind": "petals"} for _ in range(max(12, n // 10))]
     return out
 
 
